@@ -1,6 +1,6 @@
 #!/bin/bash
 # false-alarm hunt: every check on the unchanged tree with several seeds (development runs: evidence not overwritten)
-cd /verif
+cd "$(dirname "$(readlink -f "$0")")/.."
 for sd in "$@"; do
   for p in $(python3 -c "import json; print(' '.join(c['property_id'] for c in json.load(open('MANIFEST.json'))['checks']))"); do
     out=$(VERIF_SEED=$sd python3 harness/vcheck.py $p --tier quick --skip-lean 2>&1); rc=$?
